@@ -73,6 +73,18 @@ CHECKS["C18"] = dict(
     technique="Lean 4 proof (digit-list bounds) + exhaustive differential correspondence on short buffers",
     design="5/C18")
 
+CHECKS["C01"] = dict(
+    text="Lean 4: C01_layout -- for every well-formed item tree (any nesting of groups, OCCURS, REDEFINES clusters at any position), every "
+         "navigation path over the GENERATED schema, through the per-record anchors map and fresh LocationMakers after index(), lands on the "
+         "byte range of the COBOL layout rule `specNav`; C01_length; the elementary width is a parameter so EBCDIC and text are both covered. "
+         "Tied to the code by rendering generated trees to copybook text and comparing the emitted schema (property order included) and the "
+         "(start,end) of every path with the model, plus raw() slices.",
+    note="Trusted: Lean kernel; the model of build_json_schema/LocationMaker.walk/NDNav is hand-written and tied by correspondence only "
+         "(no extraction: method dispatch). Hypotheses of the theorem = negations of known findings D2 (unique anchor names) and D34 "
+         "(participants are not elementary OCCURS items); redefiners adjacent to their base and no longer than it.",
+    technique="Lean 4 proof (mutual structural induction over nested inductive item trees, sublist/Nodup lemmas for the anchors map) + differential correspondence on every path",
+    design="5/C01")
+
 NOT_APPLICABLE = {
 }
 
